@@ -221,6 +221,24 @@ impl C09 {
         }
         sh.count("roundtrips_ok", 1);
         // names: explicit + distinct names of a *parsed* system survive a further cycle
+        self.name_cycle(sh, ctx, &sys2, &text);
+        // the same for ordinary names that end in a word the reader uses for the names it invents:
+        // the names are put into the written text, so that the system that carries them is a parsed one
+        if rng.chance(1, 2) {
+            let sfx = *rng.pick(&["_state", "_input", "_state_1", "_input_12", "_output", "_bad_0", "_constraint", "_output_3", ".c_state", "_bad", "_constraint_7"]);
+            let renamed = rename_in_text(&text, sfx);
+            if renamed != text {
+                if let Ok(Some(sys_r)) = util::catch(|| patronus::btor2::parse_str(ctx, &renamed, Some("rn"))) {
+                    sh.count("systems_renamed_with_reserved_word_suffix", 1);
+                    self.name_cycle(sh, ctx, &sys_r, &renamed);
+                }
+            }
+        }
+    }
+
+    /// `sys2` was read from `text`; if all its names are explicit and distinct they must survive write + read
+    pub fn name_cycle(&self, sh: &mut Shard, ctx: &mut Context, sys2: &TransitionSystem, text: &str) {
+        let sys2 = sys2.clone();
         let n2 = Self::names_of(ctx, &sys2);
         let explicit = n2.iter().all(|n| !is_autogen(n.split(':').nth(1).unwrap_or("")));
         let mut dd: Vec<&str> = n2.iter().map(|n| n.split(':').nth(1).unwrap_or("")).collect();
@@ -263,6 +281,21 @@ impl C09 {
     }
 }
 
+/// appends `sfx` to the name on every input/state/output line that has one
+fn rename_in_text(text: &str, sfx: &str) -> String {
+    let mut out = String::new();
+    for line in text.lines() {
+        let t: Vec<&str> = line.split_whitespace().collect();
+        if t.len() == 4 && matches!(t[1], "input" | "state" | "output") && !t[3].starts_with(';') {
+            out.push_str(&format!("{} {} {} {}{}\n", t[0], t[1], t[2], t[3], sfx));
+        } else {
+            out.push_str(line);
+            out.push('\n');
+        }
+    }
+    out
+}
+
 impl Check for C09 {
     fn id(&self) -> &'static str {
         "C09"
@@ -274,7 +307,7 @@ impl Check for C09 {
         "functions_compared"
     }
     fn rule(&self) -> String {
-        "mode gen: G2 systems (array states initialised by constants or by expressions over earlier states, const states, free states, states with neither init nor next, outputs aliasing states, named inner nodes, anonymous inputs, literals of every shape incl. widths 63-65 and 127-129 in a third of the systems); mode corpus: the 116 btor2 files under /repo/inputs (parse, then write, then read). Each system the writer accepts is written with btor2::serialize and read back into the same context; inputs (followed by demoted states), states, outputs, bads, constraints are matched by position and type; functions are compared by reference, else by the reference evaluator under positionally translated assignments (all assignments when <= 14 symbol bits, else 64 corner/correlated ones) and a 20-step lock-step reference simulation. For re-read systems with explicit distinct names a second write/read cycle must keep all input/state/output names. distinct_nontrivial = distinct systems that were written and re-read.".into()
+        "mode gen: G2 systems (array states initialised by constants or by expressions over earlier states, const states, free states, states with neither init nor next, outputs aliasing states, named inner nodes, anonymous inputs, literals of every shape incl. widths 63-65 and 127-129 in a third of the systems); mode corpus: the 116 btor2 files under /repo/inputs (parse, then write, then read). Each system the writer accepts is written with btor2::serialize and read back into the same context; inputs (followed by demoted states), states, outputs, bads, constraints are matched by position and type; functions are compared by reference, else by the reference evaluator under positionally translated assignments (all assignments when <= 14 symbol bits, else 64 corner/correlated ones) and a 20-step lock-step reference simulation. For re-read systems (and for the shipped files as parsed) with explicit distinct names a further write/read cycle must keep all input/state/output names; in half of the cases the written text is additionally re-read with every name extended by a word the reader uses for its own invented names (`_state`, `_input_12`, `_bad_0`, `.c_state`, ...) and cycled again. distinct_nontrivial = distinct systems that were written and re-read.".into()
     }
     fn assumptions(&self) -> Vec<String> {
         vec!["init expressions only read earlier states (the writer emits init trees before the state declaration)".into(), "systems the writer rejects (array constants outside init) are counted and skipped".into()]
@@ -296,6 +329,8 @@ impl Check for C09 {
             sh.count("corpus_files", 1);
             sh.distinct(util::hash_str(&name));
             self.roundtrip(sh, &mut ctx, &sys, &mut rng, &format!("corpus file {}", f.display()), 12, 8);
+            // the shipped file's own names (the system is a parsed one)
+            self.name_cycle(sh, &mut ctx, &sys, &text);
             return;
         }
         let mut cfg = SysCfg::default();
@@ -308,7 +343,13 @@ impl Check for C09 {
             cfg.max_state_bits = 300;
             cfg.max_input_bits = 200;
         }
-        let gs = gen_system(&mut rng, &mut ctx, &cfg, "");
+        // ordinary names that merely end in (or contain) a word the reader uses for names it invents
+        cfg.name_suffix = rng.pick(&["", "", "", "_state", "_input", "_state_1", "_input_12", "_output", "_bad_0", "_constraint", "_output_3", ".c_state"]).to_string();
+        let name_prefix = *rng.pick(&["", "", "", "_", "x_state_", "_input"]);
+        if !cfg.name_suffix.is_empty() {
+            sh.count("systems_with_reserved_word_name_suffix", 1);
+        }
+        let gs = gen_system(&mut rng, &mut ctx, &cfg, name_prefix);
         let mut sys = gs.sys;
         if rng.chance(1, 3) {
             // a label that aliases a state
